@@ -84,6 +84,14 @@ func (c *Channel) LeavePresence(ctx context.Context, status string, p stanza.Pre
 	ctx, cancel := context.WithCancel(ctx)
 	defer cancel()
 
+	// A departure that nobody was waiting for (we were removed from the room
+	// and joined it again) may still be recorded: it is not the answer to the
+	// presence that we are about to send.
+	select {
+	case <-c.depart:
+	default:
+	}
+
 	errChan := make(chan error)
 	go func(errChan chan<- error) {
 		resp, err := c.session.SendPresenceElement(ctx, inner, p)
